@@ -10,3 +10,21 @@ package types
 //@ trusted
 //@ func (k RollingseedKeeper) GetRollingSeed
 //@ trusted
+
+//@ func (k StakingKeeper) ValidatorByConsAddr
+//@ trusted
+//@ func (k AccountKeeper) GetModuleAccount
+//@ trusted
+//@ func (k BankKeeper) GetAllBalances
+//@ trusted
+//@ func (k BankKeeper) SendCoinsFromModuleToModule
+//@ trusted
+//@ modifies Bank
+//@ func (k DistrKeeper) GetCommunityTax
+//@ trusted
+//@ func (k DistrKeeper) FundCommunityPool
+//@ trusted
+//@ modifies Bank, Other
+//@ func (k DistrKeeper) AllocateTokensToValidator
+//@ trusted
+//@ modifies Other
